@@ -81,13 +81,13 @@ Definition hl_cfg : cfg := {| c_inc := None; c_exc := Some [ip "a"]; c_prune := 
 (* ---- the refutations, as stated in Properties/C11.v ---- *)
 Lemma map_drop_refuted_proof :
   exists pmatch mapfn c view,
-    prefix_semantics pmatch /\ cfg_star_safe c = true /\ map_keeps_shape mapfn /\
+    map_keeps_shape mapfn /\
     wf_source view = true /\ source_links_ok view = true /\
     run_validator (items (sender_view pmatch mapfn c view)) = Some 0%nat.
 Proof.
   exists pm_lit, drop_d, nopat_cfg, k1_view.
   destruct drop_d_stream_rejected as (H1 & H2 & _ & H4).
-  split; [apply lit_pmatch_prefix_semantics|]. split; [reflexivity|]. split; [apply drop_d_keeps_shape|].
+  split; [apply drop_d_keeps_shape|].
   split; [exact H1|]. split; [exact H2|exact H4].
 Qed.
 
@@ -106,7 +106,6 @@ Qed.
 
 Lemma transfer_late_shadow_refuted_proof :
   exists pmatch mapfn c view (H : bytes -> bytes) (hdr : stat -> bytes) q,
-    prefix_semantics pmatch /\ cfg_star_safe c = true /\
     map_keeps_shape mapfn /\ map_never_drops_dirs mapfn /\ map_keeps_special mapfn /\
     wf_source view = true /\ source_links_ok view = true /\ groups_coherent view /\
     let r := receive_abs H hdr Fresh DMetadata [] (sender_entries pmatch mapfn c view) in
@@ -115,7 +114,6 @@ Lemma transfer_late_shadow_refuted_proof :
 Proof.
   exists pm_lit, id_map, k1x_cfg, k1_view, Hid, hid, k1_q.
   destruct k1x_announced_unopenable as (H1 & H2 & H3 & _).
-  split; [apply lit_pmatch_prefix_semantics|]. split; [reflexivity|].
   split; [apply id_map_keeps_shape|]. split; [apply id_map_never_drops|]. split; [apply id_map_keeps_special|].
   split; [exact H1|]. split; [exact H2|]. split; [apply groups_coherent_b_sound; exact H3|].
   exact k1x_transfer_loses_content.
